@@ -485,13 +485,17 @@ class Ctx:
                 m0 = self.solver.model()
                 ob.model = self._nice_model(cond) or m0
                 if parts:
+                    bad = []
                     for pname, pc in parts:
                         try:
                             if z3.is_false(ob.model.eval(pc if not isinstance(pc, bool) else z3.BoolVal(pc), model_completion=True)):
-                                ob.detail = "fails for: %s" % pname
-                                break
+                                bad.append(pname)
+                                if len(bad) >= 6:
+                                    break
                         except z3.Z3Exception:
                             pass
+                    if bad:
+                        ob.detail = "fails for: %s" % ", ".join(bad)
             else:
                 ob.status = "unknown"
                 ob.detail = self.solver.reason_unknown()
